@@ -26,7 +26,8 @@ def gen_tx(rng, shape):
     outs = []
     for i in range(n_out):
         sl = slen_out if i == 0 else rng.choice((0, 1, 25))
-        outs.append((rng.choice((0, 1, 2 ** 63 - 1, 21 * 10 ** 14, rng.randrange(1 << 40))), rng.randbytes(sl)))
+        # negative values = wire values >= 2^63
+        outs.append((rng.choice((0, 1, 2 ** 63 - 1, 21 * 10 ** 14, rng.randrange(1 << 40), -1, -2 ** 63)), rng.randbytes(sl)))
     return Tx(ins, outs, version=rng.choice((1, 2, -1, 2 ** 31 - 1, -2 ** 31)),
               locktime=rng.choice((0, 1, MINUS1, 499999999, 500000000)))
 
